@@ -34,6 +34,13 @@ RANDOM_K = {"quick": 6, "thorough": 100}
 
 def gen_base(rng, tier, index):
     from vf.checks import c03
+    if index == 12 or (tier == "thorough" and index % 40 == 12):
+        # a pool WITH join_timeout whose workers need longer than that for begin(): until_all_ready() still means ready
+        return {"pool": "functor" if index % 80 < 40 else "factory", "workers": 2, "wq": None, "rq": None, "quota": None if index % 80 < 40 else 3,
+                "join_timeout": 0.3, "begin_delay": 0.9 if tier == "quick" else rng.choice([0.9, 1.7]), "end_delay": 0,
+                "ready_first": True, "ready_during": True,
+                "calls": [{"ordered": True, "n": 4, "chunk": 1, "form": "list", "ready_after": True},
+                          {"ordered": False, "n": 3, "chunk": 2, "form": "gen"}]}
     case = c03.gen_base(rng, tier, index)
     case.pop("join_timeout", None)       # the property speaks about pools without join_timeout
     case.pop("no_sweep", None)
